@@ -28,6 +28,8 @@ pub enum Case {
     Primitives { class: u8, seed: u64 },
     /// packages: wrong version, foreign suite id, embedded primitive replaced by catalogue entries, bit flips of fixed-layout packages
     Packages { seed: u64 },
+    /// raw input of the fz_decode fuzz target (corpus / crash replay); same shape as C14's raw case
+    RawDecode { hex: String },
 }
 
 impl Property for C12 {
@@ -107,6 +109,13 @@ impl Property for C12 {
     fn check(&self, suite: SuiteId, case: &Case, ctx: &mut Ctx) -> CheckResult {
         dispatch!(suite, check(case, ctx))
     }
+    fn extra(&self, tier: Tier, seed: u64, _known: &Known, out: &mut ExtraOut) {
+        // the decode fuzz body carries the C12 relations (accepted => canonical / round-trips) as oracle
+        crate::props::c14::corpus_replay_one("C12", "decode", out);
+        if tier == Tier::Thorough {
+            crate::props::c14::fuzz_campaign("C12", "fz_decode", seed ^ 0x12, 300, out);
+        }
+    }
 }
 
 fn check<C: Suite>(case: &Case, ctx: &mut Ctx) -> CheckResult {
@@ -114,6 +123,11 @@ fn check<C: Suite>(case: &Case, ctx: &mut Ctx) -> CheckResult {
         Case::Values { shape, ids, seed } => values::<C>(*shape, *ids, *seed, ctx),
         Case::Primitives { class, seed } => primitives::<C>(*class, *seed, ctx),
         Case::Packages { seed } => packages::<C>(*seed, ctx),
+        Case::RawDecode { hex } => {
+            let b = hex::decode(hex).map_err(|_| inconclusive("bad hex in raw case"))?;
+            ctx.eval(&format!("raw-decode,{:x}", fnv(hex)), true);
+            crate::props::c14::no_panic("C12", || crate::fuzz_entry::decode(&b))
+        }
     }
 }
 
